@@ -534,6 +534,13 @@ func (m *Machine) prepareCall(f *Frame, c *ssa.CallCommon) (Value, []Value) {
 			// nil interface method call: panics at call time; represent by a native marker
 			return &Closure{Native: "nilinvoke"}, nil
 		}
+		if o, isO := ifc.V.(*Opaque); isO && o.Tag == "rtype" {
+			args = append(args, ifc.V)
+			for _, a := range c.Args {
+				args = append(args, m.get(f, a))
+			}
+			return &Closure{Native: "rtype:" + c.Method.Name()}, args
+		}
 		meth := m.P.lookupMethod(ifc.T, c.Method)
 		if meth == nil {
 			panic(unsupported("method " + c.Method.Name() + " not found on " + ifc.T.String()))
